@@ -76,11 +76,14 @@ def justified(frames, deliveries, max_frame_size, plen):
                 buf = bytearray(data[:L])
                 exp = 1
                 good = True
+                ff_rxdl = max(8, len(ff) + plen)
                 for i in range(j + 1, k + 1):
                     f = frames[i - 1]
                     if not f:
                         continue
                     t = f[0] >> 4
+                    if t == 2 and (f[0] & 0xF) == exp and max(8, len(f) + plen) != ff_rxdl and max(8, len(f) + plen) < L - len(buf):
+                        continue        # a Consecutive Frame in a CAN frame of another size that cannot hold the rest is ignored (RX_DL is fixed by the First Frame)
                     if t == 2 and (f[0] & 0xF) == exp:
                         buf += f[1:]
                         exp = (exp + 1) & 0xF
@@ -165,7 +168,17 @@ def gen_interrupts(rng):
         frames = encode_stream(bytes(rng.getrandbits(8) for _ in range(n)), 8, pfx, 'min')
         cut = len(frames) if rng.random() < 0.4 else rng.randint(1, len(frames))
         plan.append((n, cut, len(frames)))
-        for f in frames[:cut]:
+        remaining = n
+        for fi, f in enumerate(frames[:cut]):
+            if fi >= 1 and rng.random() < 0.25:
+                # frames the reception must ignore without losing count of the block: the expected Consecutive Frame in a 12-byte CAN FD
+                # frame that cannot hold the rest (RX_DL differs from the First Frame's), or a stray Flow Control
+                if remaining > 12 and rng.random() < 0.7:
+                    dist = pfx + bytes([0x20 | (fi & 0xF)]) + bytes(rng.getrandbits(8) for _ in range(11 - len(pfx)))
+                else:
+                    dist = pfx + bytes([0x30, 0, 0])
+                ops += [[0, 'rx', rid, int(ext), hx(dist)], [0, 'proc', 1, 1], [0, 'recv']]
+            remaining -= (len(f) - len(pfx) - (2 if fi == 0 else 1))
             ops += [[0, 'rx', rid, int(ext), hx(f)], [0, 'proc', 1, 1], [0, 'recv']]
     return {'insts': [inst], 'ops': ops, 'nops': len(ops), 'one_per_call': True, 'plan': plan, 'bs': bs}
 
@@ -186,7 +199,9 @@ def oracle_interrupts(case, lines, insts):
             d = unhx(op[4])[len(pfx):]
             t = d[0] >> 4
             expect_fc = False
-            if t == 1:
+            if t == 3 or (t == 2 and len(unhx(op[4])) == 12):
+                pass        # ignored by the reception (see gen_interrupts)
+            elif t == 1:
                 remaining = (((d[0] & 0xF) << 8) | d[1]) - (len(d) - 2)
                 in_block = 0
                 expect_fc = True
